@@ -11,13 +11,13 @@ Deductive part:
                           state of all variables it may modify), diagnostics['converged'] = True implies that every
                           entry strictly below the diagonal of the returned T has modulus <= tol; the returned Q is
                           P0^H Q_accum and T is the final iterate; guards; n = 0.
-  pure.iteration          quaternion_schur_pure, the whole iteration, every n, budget, shift mode and exit: matrix-level loop
-                          invariants in the free algebra (Q_accum unitary; Q_accum^H (P0 A P0^H) Q_accum - H = D, where D collects
-                          the rotated deflation zeroings; inner QR sweep: Q_iter unitary, R_work = Q_iter (H - sigma I)), with the
-                          three entry-level loops entering through closed forms that are discharged at index level
-                          (pure.entry_loops: shift subtraction / addition, deflation test and running maximum as ghost functions).
-                          Result: Q unitary and Q^H A Q - T = D exactly on every exit.
-The loop bodies of the other four variants (entry-level Givens sweeps, windows, real expansion) are outside the engine's reach:
+  pure.iteration          quaternion_schur_pure and quaternion_schur_pure_implicit, the whole iteration, every n, budget, shift mode
+                          and exit: matrix-level loop invariants in the free algebra (Q_accum unitary; Q_accum^H (P0 A P0^H) Q_accum - H = D,
+                          where D collects the rotated deflation zeroings; inner sweep: Q_iter unitary, R_work = Q_iter (H - sigma I),
+                          resp. H = W H_s W^H, Q_accum = Q_s W^H), with the entry-level loops entering through closed forms that are
+                          discharged at index level (pure.entry_loops: shift subtraction / addition, deflation test and running
+                          maximum as ghost functions).  Result: Q unitary and Q^H A Q - T = D exactly on every exit.
+The loop bodies of the other three variants (Givens sweeps on windows, real expansion) are outside the engine's reach:
 that their iterate stays unitarily similar to A through every shift schedule, deflation decision and early exit is decided by
 the bounded stand-in: every variant x shift x budget (0, 1, 2, 5, default) on n <= 5 (6) matrix classes."""
 from __future__ import annotations
@@ -435,6 +435,11 @@ def pure_iteration(rep: Report):
         def has_attr(self, name):
             return name in "wxyz"
 
+        def __sub__(self, o):
+            return EntryQ(cur().fresh_name("entry"))          # entry minus a scalar: another unknown quaternion
+
+        __add__ = __sub__
+
     class SCol:
         qv_value = True
 
@@ -468,15 +473,18 @@ def pure_iteration(rep: Report):
 
         def setitem(self, idx, val):
             c = cur()
-            ok = isinstance(idx, tuple) and len(idx) == 2 and all(isinstance(s_, slice) and s_.stop is None and s_.step is None for s_ in idx) \
+            ok = isinstance(idx, tuple) and len(idx) == 2 and all(isinstance(s_, slice) and s_.step is None and s_.start is not None for s_ in idx) \
                 and isinstance(val, HMat) and ncm.nc_syntactically_equal(self.p, NC.eye(self.p.rows))
             if not ok:
-                raise OutOfReach("write into an identity matrix other than one trailing diagonal block")
+                raise OutOfReach("write into an identity matrix other than one diagonal block")
+            n_ = self.p.rows
             j0, j1 = idx[0].start, idx[1].start
-            if c.valid(SBool.mk(SInt.lift(j0) == SInt.lift(j1))) is not True:
+            e0, e1_ = (n_ if idx[0].stop is None else idx[0].stop), (n_ if idx[1].stop is None else idx[1].stop)
+            if c.valid(sand(SBool.mk(SInt.lift(j0) == SInt.lift(j1)), SBool.mk(SInt.lift(e0) == SInt.lift(e1_)))) is not True:
                 raise OutOfReach("off-diagonal block written into an identity matrix")
-            ncm.dims_equal(val.shape[0], self.p.rows - j0, "block.rows")
-            ncm.dims_equal(val.shape[1], self.p.rows - j0, "block.cols")
+            c.require("index.range", sand(SBool.mk(SInt.lift(j0) >= 0), SBool.mk(SInt.lift(e0) <= SInt.lift(n_)), SBool.mk(SInt.lift(j0) <= SInt.lift(e0))), "diagonal block inside the matrix")
+            ncm.dims_equal(val.shape[0], e0 - j0, "block.rows")
+            ncm.dims_equal(val.shape[1], e0 - j0, "block.cols")
             st, _, _, _ = ncm.nc_equal_obligation(val.p.star @ val.p, NC.eye(val.p.rows), c.hyps())
             if st != smt.PROVED:
                 raise OutOfReach("diagonal block that is not known to be unitary")
@@ -503,6 +511,11 @@ def pure_iteration(rep: Report):
         if what in ("zeros", "empty") and len(shp) == 1:
             return Scratch(shp)
         return None
+
+    def np_array(x, dtype=None):
+        if isinstance(x, list) and x and all(isinstance(e, EntryQ) for e in x):
+            return SCol(cur().fresh_name("vec"), len(x))
+        raise OutOfReach("np.array form")
 
     def k_hessenbergize(I, args, kwargs):
         (A,) = args
@@ -599,6 +612,42 @@ def pure_iteration(rep: Report):
         def preserve(self, it, fr, k):
             self.check(fr, "preserve")
 
+    class ImplicitSweep(LoopRule):
+        """quaternion_schur_pure_implicit, for s in range(0, n - 1): with (H_s, Q_s) the state at the head of the sweep there is a unitary W with
+        H = W H_s W^H and Q_accum = Q_s W^H   (each step conjugates H by an embedded 2 x 2 reflector and appends its inverse to Q_accum)"""
+        modifies = ("H", "Q_accum")
+
+        def check(self, fr, phase):
+            c = cur()
+            H0, Q0 = c.ghost["sweep_head"]
+            Hn, Qn = fr.vars.get("H"), fr.vars.get("Q_accum")
+            rec = c.ghost.setdefault("emit", [])
+            if not (isinstance(Hn, HMat) and isinstance(Qn, HMat)):
+                rec.append((f"sweep.{phase}.state_is_matrix_valued", smt.REFUTED, "syntactic", 0.0, None))
+                return
+            W = Qn.p.star @ Q0.p                       # the only candidate: Q_accum = Q_s W^H
+            st1 = ncm.nc_equal_obligation(W.star @ W, NC.eye(W.cols), c.hyps())[0]
+            st2 = ncm.nc_equal_obligation(Hn.p, W @ H0.p @ W.star, c.hyps())[0]
+            rec.append((f"sweep.{phase}.W_unitary", st1, "normal-form", 0.0, None))
+            rec.append((f"sweep.{phase}.H_is_W_H0_WH", st2, "normal-form", 0.0, None))
+
+        def establish(self, it, fr, start):
+            cur().ghost["sweep_head"] = (fr.vars["H"], fr.vars["Q_accum"])
+            self.check(fr, "establish")
+
+        def havoc(self, it, fr, k):
+            c = cur()
+            H0, Q0 = c.ghost["sweep_head"]
+            n = fr.vars["n"]
+            W = HMat(NC.atom(Atom(c.fresh_name("W"), n, n, "orth", alg="H")))
+            if c.ghost.get("_havoc_kind") == "exhausted":
+                c.ghost["Qi_exit"] = W
+            fr.vars["H"] = SMat(W.p @ H0.p @ W.p.star)
+            fr.vars["Q_accum"] = HMat(Q0.p @ W.p.star)
+
+        def preserve(self, it, fr, k):
+            self.check(fr, "preserve")
+
     class Main(LoopRule):
         modifies = ("H", "Q_accum", "diag")
 
@@ -646,7 +695,7 @@ def pure_iteration(rep: Report):
         c = cur()
         g = c.ghost
         B, Qa, D = g["hess"]["B"], g["Qa"], g["D"]
-        Qn, Hn, Qi, E = fr.vars.get("Q_accum"), fr.vars.get("H"), fr.vars.get("Q_iter"), g.get("E_step")
+        Qn, Hn, Qi, E = fr.vars.get("Q_accum"), fr.vars.get("H"), g.get("Qi_exit"), g.get("E_step")
         if not all(isinstance(x, HMat) for x in (Qn, Hn, Qi)) or E is None:
             return [("state_after_a_pass_is_matrix_valued", smt.REFUTED)]
         s1 = ncm.nc_equal_obligation(Qn.p.star @ Qn.p, NC.eye(Qn.p.rows), c.hyps())[0]
@@ -658,10 +707,17 @@ def pure_iteration(rep: Report):
     lib = Library("nc")
     lib.qmode = "H"
     lib.alloc_hooks.append(alloc)
+    lib.np.table["array"] = np_array
     contracts = dict(ALGEBRA)
     contracts.update({HBm + "hessenbergize": k_hessenbergize, HBm + "check_hessenberg": k_check, TDm + "householder_matrix": k_house, SC + "_strictly_lower_max": k_lowmax})
-    rules = {(QN, 0): Main(), (QN, 1): ShiftSub(), (QN, 2): QRSweep(), (QN, 3): ShiftAdd(), (QN, 4): Deflate()}
-    for mode in ("none", "rayleigh"):
+    QI = SC + "quaternion_schur_pure_implicit"
+    variants = {QN: ({(QN, 0): Main(), (QN, 1): ShiftSub(), (QN, 2): QRSweep(), (QN, 3): ShiftAdd(), (QN, 4): Deflate()},
+                     ["sweep.establish.Q_iter_unitary", "sweep.establish.R_work_is_Q_iter_times_shifted_H", "sweep.preserve.Q_iter_unitary", "sweep.preserve.R_work_is_Q_iter_times_shifted_H"]),
+                QI: ({(QI, 0): Main(), (QI, 1): ImplicitSweep(), (QI, 2): Deflate()},
+                     ["sweep.establish.W_unitary", "sweep.establish.H_is_W_H0_WH", "sweep.preserve.W_unitary", "sweep.preserve.H_is_W_H0_WH"])}
+    for qn, mode in [(q_, m_) for q_ in (QN, QI) for m_ in ("none", "rayleigh")]:
+        rules, sweep_clauses = variants[qn]
+
         def setup(I, ctx, mode=mode):
             (n,) = dims(ctx, "n")
             ctx.assume(n >= 1, base=True)
@@ -696,10 +752,9 @@ def pure_iteration(rep: Report):
                 st, be, secs, wit = ncm.nc_equal_obligation(Q.p.star @ A.p @ Q.p - T.p, D.p, c.hyps())
                 out.append(("QH_A_Q_minus_T_is_the_accumulated_zeroings", st, be, secs, wit or None))
             return out
-        run_case(rep, P, QN, f"iteration.shift_{mode}", setup, post, lib=lib, contracts=contracts, loop_rules=rules,
-                 clauses=["returns_Q_T_diagnostics", "Q_is_unitary", "QH_A_Q_minus_T_is_the_accumulated_zeroings", "main.establish.Q_accum_unitary",
-                          "sweep.establish.Q_iter_unitary", "sweep.establish.R_work_is_Q_iter_times_shifted_H", "sweep.preserve.Q_iter_unitary", "sweep.preserve.R_work_is_Q_iter_times_shifted_H",
-                          "main.preserve.Q_accum_stays_unitary", "main.preserve.discrepancy_is_rotated_old_discrepancy_plus_this_pass_zeroings",
+        run_case(rep, P, qn, f"iteration.shift_{mode}", setup, post, lib=lib, contracts=contracts, loop_rules=rules,
+                 clauses=["returns_Q_T_diagnostics", "Q_is_unitary", "QH_A_Q_minus_T_is_the_accumulated_zeroings", "main.establish.Q_accum_unitary"] + sweep_clauses +
+                         ["main.preserve.Q_accum_stays_unitary", "main.preserve.discrepancy_is_rotated_old_discrepancy_plus_this_pass_zeroings",
                           "main.preserve.a_pass_that_does_not_stop_leaves_converged_False"], replay=replay_variants, timeout_s=30, loop_end=True, max_paths=600)
 
 
@@ -822,10 +877,14 @@ def pure_entry_loops(rep: Report):
             c.require("inv.preserve", sor(snot(sand(w >= 1, w < k + 1)), SBool.mk(MS(zi(k) + 1) >= SVF(zi(w)))), "running maximum bounds the witness row after this step",
                       key="pure.defl.inv.preserve.max_witness")
 
-    rules = {(QN, 0): MainA(), (QN, 1): FunctionalInv(arrays={"R_work": sub_closed}, tag="pure.sub."),
-             (QN, 2): HavocAll({"R_work": lambda it, fr: fresh_q("Rw", (fr.vars["n"], fr.vars["n"])), "Q_iter": lambda it, fr: fresh_q("Qit", (fr.vars["n"], fr.vars["n"]))}),
-             (QN, 3): FunctionalInv(arrays={"H": add_closed}, tag="pure.add."),
-             (QN, 4): DeflRule(arrays={"H": defl_closed}, scalars={"max_sub": defl_max}, assume=defl_assume, tag="pure.defl.")}
+    QI = SC + "quaternion_schur_pure_implicit"
+    arb = lambda nm: (lambda it, fr: fresh_q(nm, (fr.vars["n"], fr.vars["n"])))
+    cases = {QN: {(QN, 0): MainA(), (QN, 1): FunctionalInv(arrays={"R_work": sub_closed}, tag="pure.sub."),
+                  (QN, 2): HavocAll({"R_work": arb("Rw"), "Q_iter": arb("Qit")}),
+                  (QN, 3): FunctionalInv(arrays={"H": add_closed}, tag="pure.add."),
+                  (QN, 4): DeflRule(arrays={"H": defl_closed}, scalars={"max_sub": defl_max}, assume=defl_assume, tag="pure.defl.")},
+             QI: {(QI, 0): MainA(), (QI, 1): HavocAll({"H": arb("Hsw"), "Q_accum": arb("Qsw")}),
+                  (QI, 2): DeflRule(arrays={"H": defl_closed}, scalars={"max_sub": defl_max}, assume=defl_assume, tag="pure.defl.")}}
 
     def setup(I, ctx):
         (n,) = dims(ctx, "n")
@@ -837,8 +896,9 @@ def pure_entry_loops(rep: Report):
 
     def post(I, ctx, outcome, val, aux):
         return []
-    run_case(rep, P, QN, "entry_loops", setup, post, lib=Library("idx"), contracts=contracts, loop_rules=rules, clauses=[], replay=replay_variants, timeout_s=60,
-             loop_end=True, max_paths=600)
+    for qn, rules in cases.items():
+        run_case(rep, P, qn, "entry_loops", setup, post, lib=Library("idx"), contracts=contracts, loop_rules=rules, clauses=[], replay=replay_variants, timeout_s=60,
+                 loop_end=True, max_paths=600)
 
 
 def check_schur(fn, A4, budget, tol, hermitian_spectrum=None):
@@ -934,7 +994,7 @@ def bounded(rep: Report, tier, seed):
 def run(tier, seed):
     rep = Report(P, tier, seed, "exploration")
     rep.assumptions += [
-        "the iteration bodies of four of the five variants (entry-level Givens sweeps, windows, real expansion) are not executed by the engine: the flag and composition obligations hold for an arbitrary state left by the loop, the similarity of the iterate is decided by the bounded stand-in; quaternion_schur_pure is proved through its whole iteration (householder_matrix unitary by its C09 contract)",
+        "the iteration bodies of three of the five variants (Givens sweeps on windows, real expansion) are not executed by the engine: the flag and composition obligations hold for an arbitrary state left by the loop, the similarity of the iterate is decided by the bounded stand-in; quaternion_schur_pure and quaternion_schur_pure_implicit are proved through their whole iteration (householder_matrix unitary by its C09 contract; the accumulated deflation zeroings D are bounded entrywise by the deflation test, their norm is not summed up)",
         "hessenbergize, check_hessenberg, quat_matmat, quat_hermitian, real_expand / real_contract are used through contracts (C09, C01, C02)",
         "floats as reals; 'accuracy governed by the deflation tolerance' is checked with the explicit bound 1e-7 n ||A||",
     ]
